@@ -116,7 +116,7 @@ pub fn expect_hdr(region: &[u8]) -> Expected {
     }
     {
         let n = w.items.len();
-        let mut ks = vec![0usize, 1, 2, n / 2, n.saturating_sub(1), n, n + 1];
+        let mut ks = vec![0usize, 1, 2, n / 2, n.saturating_sub(1), n, n + 1, n + 2, n + 3, n + 9];
         ks.sort_unstable();
         ks.dedup();
         for k in ks {
